@@ -648,7 +648,18 @@ impl expr::Expr
 						let right = propagate!(
 							right_expr.eval_with_ctx(report, ctx, provider)?);
 
-						let left_usize = left.expect_usize(report, span)? + 1;
+						let left_usize = match left.expect_usize(report, span)?.checked_add(1)
+						{
+							Some(left_usize) => left_usize,
+							None =>
+							{
+								report.error_span(
+									"value is out of supported range",
+									span);
+
+								return Err(());
+							}
+						};
 						let right_usize = right.expect_usize(report, span)?;
 
 						Ok(expr::Value::make_integer(
